@@ -748,8 +748,8 @@ def pack_typed_dict(spec: ValueSpec) -> Expression:
         for k, v in spec.origin_type.__annotations__.items()
     }
     all_keys = list(annotations.keys())
-    required_keys = getattr(spec.type, "__required_keys__", all_keys)
-    optional_keys = getattr(spec.type, "__optional_keys__", [])
+    required_keys = getattr(spec.origin_type, "__required_keys__", all_keys)
+    optional_keys = getattr(spec.origin_type, "__optional_keys__", [])
     lines = CodeLines()
     method_name = (
         f"__pack_typed_dict_{spec.builder.cls.__name__}_"
